@@ -45,6 +45,7 @@ MEMB = [T.leaf("Value", "in_", [1, 2]), T.leaf("Value", "in_", [3, 5, "a"]), T.l
         T.leaf("Key", "in_", ["a", "b"]), T.leaf("Key", "in_", ["c", 1]), T.leaf("Key", "not_in", ["a"]), T.leaf("Index", "in_", [0, 1]),
         T.leaf("Index", "in_", [2, 4]), T.leaf("Index", "not_in", [0]), T.leaf("Value", "in_range", 1, 3), T.leaf("Value", "in_range", 2, 6),
         T.leaf("Value", "keys_contain_any_of", "a"), T.leaf("Value", "keys_contain_any_of", "k")]
+IOPS = {"and": operator.iand, "or": operator.ior, "xor": operator.ixor}
 OPS = {"and": operator.and_, "or": operator.or_, "xor": operator.xor}
 CLS = {"and": C.ConditionAnd, "or": C.ConditionOr, "xor": C.ConditionXor}
 LIST_DOCS = [[1, 2, 3, 5, "a"], [3], [None, [1], {"a": 1}, 0.5]]
@@ -266,6 +267,21 @@ def check_tree(res, t, way, key, docs_override=None):
             res.violation("reference:%s" % way, "%s on %r differs from the reference model" % (T.show(t), doc), case,
                           observed=got, expected=want_abs)
             return
+        # the way rule tests ask: the items handed over as (value, concrete path) pairs
+        # (value-kind trees only: that calling convention hands index-kind leaves a pair instead of an index -- on the
+        # unchanged tree `Index.less_than(2)` refuses such data with TypeError -- and no statement speaks about it)
+        if isinstance(doc, list) and kinds <= {"value"}:
+            res.count("transitions")
+            try:
+                gp = c.filter([(v, (i,)) for i, v in enumerate(fresh(doc))], data_has_paths=True).result
+            except BaseException as e:
+                res.violation("with-paths:%s:%s" % (way, type(e).__name__), "%s filtering (value, path) pairs of %r raised %r"
+                              % (T.show(t), doc, e), case, observed=repr(e))
+                return
+            if gp != got:
+                res.violation("with-paths:%s" % way, "%s gives %r on the (value, path) pairs of %r but %r on the values"
+                              % (T.show(t), gp, doc, got), case, observed=gp, expected=got)
+                return
         # the other way of asking: test_all is "every item satisfies it"
         res.count("transitions")
         try:
@@ -320,6 +336,29 @@ def check_operands_intact(res, t, docs, case):
         return False
     if [[_res(x, d) for d in docs] for x in (a, b)] != obs:
         res.violation("operands:behaviour", "after building %s an operand filters differently" % T.show(t), case)
+        return False
+    # ... and through the augmented operators (`acc = a; acc &= b`) and as the `condition=` of a path part
+    res.count("transitions", 2)
+    try:
+        acc = a
+        acc = IOPS[t[0]](acc, b)
+        rc3 = [_res(acc, d) for d in docs]
+        if T.cond_kinds(t[1]) <= {"value"}:
+            from valida.datapath import MapValue, ListValue
+            MapValue(key="b", condition=a)
+            ListValue(index=0, condition=a)
+            MapValue(key="b", value=a)
+    except BaseException as e:
+        res.violation("operands:augmented-raises:%s" % type(e).__name__, "`acc = a; acc %s= b` / a part built on an operand of %s raised %r"
+                      % ({"and": "&", "or": "|", "xor": "^"}[t[0]], T.show(t), e), case, observed=repr(e))
+        return False
+    if (face(a, t[1]), face(b, t[2])) != before or [[_res(x, d) for d in docs] for x in (a, b)] != obs:
+        res.violation("operands:changed-by-augmented-op", "an augmented operator or a path part built on an operand of %s changed "
+                      "that operand: %r / %r" % (T.show(t), a, b), case, observed=(repr(a), repr(b)), expected=(T.show(t[1]), T.show(t[2])))
+        return False
+    if rc3 != rc:
+        res.violation("operands:augmented-differs", "`acc = a; acc op= b` filters differently from `a op b`: %s" % T.show(t), case,
+                      observed=rc3, expected=rc)
         return False
     if rc != rc2:
         res.violation("operands:second-combination", "combining the same two operands a second time gives a condition that filters "
